@@ -281,11 +281,10 @@ def run_cases(name, imports, pairs, shard=400, timeout=600):
             f.write(";\n".join(f" ({m}, {cV(v)})" for m, v in sh_pairs))
             f.write("].\nEval vm_compute in (mismatches cases).\n")
         procs.append((k, path, subprocess.Popen(
-            ["timeout", str(timeout), "coqc", "-Q", ".", "Verif",
-             "-w", "-notation-overridden", path],
+            ["bash", "-c", f"ulimit -s unlimited 2>/dev/null; exec timeout {timeout} coqc -Q . Verif -w -notation-overridden {path}"],
             cwd=COQ, text=True, stdout=subprocess.PIPE, stderr=subprocess.STDOUT)))
         if len(procs) % 12 == 0:
-            for _, _, p in procs:
+            for _, _, p in procs[-12:]:
                 p.wait()
     bad, logs = [], []
     for k, path, p in procs:
@@ -329,6 +328,7 @@ class Check:
     trusted = []
     assumptions = []
     known_classes = {}          # name -> predicate(case, observed)
+    shard = 400                 # cases per generated Coq file
 
     def __init__(self, tier, seed):
         self.tier = tier
@@ -418,7 +418,7 @@ class Check:
                 distinct.add(hashlib.sha1(repr(self.describe(c)).encode()).hexdigest())
         mism = []
         if ok and len(pairs) == len(cases):
-            mism, clog = run_cases(pid, self.corr_imports, pairs)
+            mism, clog = run_cases(pid, self.corr_imports, pairs, shard=self.shard)
             if clog:
                 notes.append(clog)
             if mism:
